@@ -91,3 +91,7 @@ Proof.
   destruct (Z.ltb (Qnum (this v)) 0); [|reflexivity].
   change (Qcmult (Qcopp v) (Qcopp v) = Qcmult v v). ring.
 Qed.
+
+(* math::adjoint of a real number is the number itself *)
+Lemma QcS_sadj_id (v : T QcS) : sadj v = v.
+Proof. reflexivity. Qed.
